@@ -5,8 +5,14 @@
 //! trusted: R15 (deep slices): SpendableOutputDescriptor::create_spendable_outputs_psbt: the TxIn built in each of the three arms (static payment output with its `sequence` statement, delayed payment output, static output) verbatim as functions of the descriptor; OutPoint::into_bitcoin_outpoint is re-declared (txid, index widened to u32); the duplicate test, the witness weights, the input value sum (MAX_MONEY test) and the PSBT assembly are dropped and not claimed
 //! assume: every requested output carries at most MAX_MONEY (a valid TxOut): the loop sums them with bitcoin::Amount's `+=`, which panics on u64 overflow before the `>= input_value` test can refuse (observation O8 in DESIGN); at most 1_000_000 outputs
 //! assume: transaction weight and witness weight are at most 4_000_000 (consensus block weight limit): the function computes fees in i64 after `as i64` casts
+//! trusted: assume_specification for core::cmp::max / core::cmp::min (std definitions): present in every unit so that a change that introduces them is verified instead of being rejected by the tool
 use vstd::prelude::*;
 verus! {
+use core::cmp;
+pub assume_specification<T: core::cmp::Ord>[core::cmp::max::<T>](a: T, b: T) -> (r: T)
+    ensures T::obeys_cmp_spec() ==> r == (if b.cmp_spec(&a) == core::cmp::Ordering::Less { a } else { b });
+pub assume_specification<T: core::cmp::Ord>[core::cmp::min::<T>](a: T, b: T) -> (r: T)
+    ensures T::obeys_cmp_spec() ==> r == (if b.cmp_spec(&a) == core::cmp::Ordering::Less { b } else { a });
 use vstd::std_specs::cmp::*;
 use vstd::std_specs::ops::*;
 use core::cmp::Ordering;
